@@ -2,5 +2,6 @@ pub mod c02;
 pub mod c05;
 pub mod c08;
 pub mod c09;
+pub mod c10;
 pub mod c16;
 pub mod c17;
